@@ -345,7 +345,8 @@ def check_repcap(case):
         signal.alarm(0)
     st = D.State()
     fails = []
-    for reg, want in ((S.ecx, 0), (S.edi, 0x100000 + count)):
+    step = {'aa': 1, 'ab': 4, 'a4': 1, 'a5': 4, 'ac': 1, 'ad': 4}.get(hx[-2:], 1)      # bytes per iteration of the string instruction
+    for reg, want in ((S.ecx, 0), (S.edi, 0x100000 + count * step)):
         d = D.den(machine.pool[reg], st)
         s = z3.Solver(); s.add(d != z3.BitVecVal(want, 32))
         if s.check() != z3.unsat:
